@@ -338,6 +338,19 @@ def explore(ctx, drv, n, per_case, gen=gen_case, graph_corr=True, reserve_s=25, 
                     ctx.tag("nf_true" if not bad else "nf_false")
                     for k in bad:
                         ctx.tag("nf_false:" + k)
+                mr = res["model_resp"] or {}
+                if "ksig" in mr:
+                    # C01b (kernel_signatures_ok): the output's operators all have a signature of the ASSUMED kernel table; the interpreter
+                    # run of the same output (oracle_c01 / C13) is what validates the table.  A float input whose output leaves the table is
+                    # outside the theorem's hypotheses (constant data operand / runtime convolution filter) or breaks the theorem's tie.
+                    ctx.tag("ksig_" + ("ok" if mr["ksig"] else "REJECTED") + ("" if mr.get("ksig_in") else "_nonfloat_input"))
+                    sigs = getattr(ctx, "ksig_seen", None)
+                    if sigs is None:
+                        sigs = ctx.ksig_seen = set()
+                    for sg_ in mr.get("ksig_sigs") or []:
+                        if sg_:
+                            sigs.add(json.dumps(sg_[:3]))
+                    res["ksig"] = mr["ksig"]
         try:
             per_case(case, res)
         except common.Timeout:
@@ -470,7 +483,7 @@ def blockwise_probe(ctx, drv, interp, n, sharing=False, extra=None):
         ctx.tag(f"blockwise_probe_{variant}_" + res["status"])
         if res["status"] == "ok":
             mo = pl.read(res["out"])
-            bad = None
+            bad, int4_bad = None, False
             for go in mo.subgraphs:
                 for t in go.tensors:
                     d = mo.buffers[t.buffer].data
@@ -480,9 +493,11 @@ def blockwise_probe(ctx, drv, interp, n, sharing=False, extra=None):
                     if t.type == pl.TT.INT4:
                         need = (int(np.prod(t.shape)) + 1) // 2
                     if need and need != len(d):
+                        int4_bad = int4_bad or t.type == pl.TT.INT4
                         bad = f"tensor {pl.tname(t)} ({pl.TT_NAME.get(t.type)} {list(t.shape)}) needs {need} bytes but its buffer {t.buffer} holds {len(d)}"
             if bad:
-                ctx.fail("a tensor over a rewritten buffer no longer agrees with its bytes: " + bad, case.replay(), "blockwise-shared-bytes")
+                ctx.fail("a tensor over a rewritten buffer no longer agrees with its bytes: " + bad, case.replay(),
+                         "blockwise-int4-unpacked" if int4_bad and bits == 4 else "blockwise-shared-bytes")
             oracle_c01(ctx, interp, case, res)
             if extra:
                 extra(case, res)
